@@ -53,7 +53,9 @@ let table : (string * schema) list = [
   "ScriptPubkey", scriptPubkey; "ScriptAll", scriptAll (nat_of_int 2); "ScriptAny", scriptAny (nat_of_int 2);
   "ScriptNOfK", scriptNOfK (nat_of_int 2); "TimelockStart", timelockStart; "TimelockExpiry", timelockExpiry;
   "AssetNames", assetNames; "GenesisHashes", genesisHashes; "ScriptHashes", scriptHashes; "RewardAddresses", rewardAddresses;
-  "TransactionMetadatumLabels", transactionMetadatumLabels; "BigNum", bigNum; "VersionedBlock", versionedBlock depth ]
+  "TransactionMetadatumLabels", transactionMetadatumLabels; "BigNum", bigNum; "VersionedBlock", versionedBlock depth;
+  (* the same wire shape as Transaction; it re-emits its kept slices verbatim, so it is not in the repeats stream *)
+  "FixedTransaction", fixedTransaction depth ]
 
 (* stream (ii) types: the schema of the form the API builds (e.g. header bodies are always built in the Praos form) *)
 let api_table : (string * schema) list = [
@@ -203,6 +205,57 @@ and dedup_keys k l =
   let seen = Hashtbl.create 16 in
   List.filter (fun (a, _) -> let e = enc k a in if Hashtbl.mem seen e then false else (Hashtbl.add seen e (); true)) l
 
+(* de-canonicalise a domain value: repeat items of sets, give sorted maps out of order, now and then repeat a map key *)
+let messed = ref false
+let rec mess (s : schema) (v : val0) : val0 =
+  match s, v with
+  | SArr fs, VList l -> VList (mess_sl (slist_to_list fs) l)
+  | SMap fs, VStruct l ->
+    let kl = klist_to_list fs in
+    (* the witness set (keys 0 1 2 3 6 7 4 5): its native-script and Plutus-script "sets" are plain vectors in the library -
+       repeated scripts read from the wire are kept - while the model treats every tag-258 set alike and drops them
+       (documented divergence, notes/design/C01.md); repeats are therefore not generated at these four fields *)
+    let is_ws = List.map (fun (k, _, _) -> int_of_n k) kl = [0; 1; 2; 3; 6; 7; 4; 5] in
+    VStruct (List.map2 (fun (k, _, f) o -> match o with
+        | Some x -> if is_ws && List.mem (int_of_n k) [1; 3; 6; 7] then Some x else Some (mess f x)
+        | None -> None) kl l)
+  | SVar alts, VVar (i, l) -> let (_, fs) = List.nth (vlist_to_list alts) (int_of_nat i) in VVar (i, mess_sl (slist_to_list fs) l)
+  | SArrOf (_, s'), VList l -> VList (List.map (mess s') l)
+  | SSetOf s', VList l ->
+    let l = List.map (mess s') l in
+    let l' = if l <> [] && below 2 = 0 then begin
+        messed := true;
+        let x = List.nth l (below (List.length l)) in
+        (match below 3 with 0 -> l @ [x] | 1 -> x :: l | _ -> List.concat (List.map (fun y -> if y == x then [y; y] else [y]) l))
+      end else l in
+    VList l'
+  | SMapOf (_, ord, k, v'), VMap l ->
+    let l = List.map (fun (a, b) -> (mess k a, mess v' b)) l in
+    let n = List.length l in
+    (match ord with
+     | KMulti -> VMap l
+     | KInsertion ->
+       (* a repeated key is an error in Withdrawals, ProposedProtocolParameterUpdates, MIRToStakeCredentials; the metadata maps
+          (uint / metadatum keys) silently keep one entry in the library where the model answers Err (documented divergence):
+          no repeats generated there *)
+       let strict_key = (match k with SUint _ | SChoice _ -> false | _ -> true) in
+       if strict_key && n > 0 && below 4 = 0 then (messed := true; VMap (l @ [List.hd l])) else VMap l
+     | KBytewise | KRewardAddr ->
+       if n > 0 && below 8 = 0 then (messed := true; VMap (l @ [List.hd l]))
+       else if n > 1 && below 2 = 0 then (messed := true; VMap (if below 2 = 0 then List.rev l else List.tl l @ [List.hd l]))
+       else VMap l)
+  | SNullable _, VNull -> VNull
+  | SNullable s', _ -> mess s' v
+  | STag (_, s'), _ -> mess s' v
+  | SInBytes s', _ -> mess s' v
+  | (SChoice alts | STagChoice alts), VAlt (i, x) -> let (_, s') = List.nth (clist_to_list alts) (int_of_nat i) in VAlt (i, mess s' x)
+  | SArrAny s', VAlt (i, VList l) -> VAlt (i, VList (List.map (mess s') l))
+  | SNamed (_, s'), _ -> mess s' v
+  | SArrOpt (fs, o), VAlt (O, VList l) -> VAlt (O, VList (mess_sl (slist_to_list fs) l))
+  | SArrOpt (fs, o), VAlt (i, VList (x :: l)) -> VAlt (i, VList (mess o x :: mess_sl (slist_to_list fs) l))
+  | _, _ -> v
+and mess_sl fs l = match fs, l with f :: fr, x :: lr -> mess f x :: mess_sl fr lr | _, _ -> l
+
 let gen_mode seed tier out =
   st := Int64.of_string seed;
   ignore (next ());
@@ -217,6 +270,19 @@ let gen_mode seed tier out =
         if wfv s v then Printf.fprintf oc "rt %s %s\n" name (hex_of_bytes (enc s v))
         else Printf.fprintf oc "gen_invalid %s %s\n" name (hex_of_bytes (enc s v))
       done) table;
+  (* stream (iv): repeats and order on the wire *)
+  let per_rs = if tier = "thorough" then 300 else 24 in
+  List.iter (fun (name, s) ->
+      let tries = ref 0 and made = ref 0 in
+      while !made < per_rs && !tries < 3 * per_rs do
+        incr tries;
+        let v = gen s [| 3; 4; 5; 6; 8 |].(!tries mod 5) in
+        if wfv s v && refined writer_form s v then begin
+          messed := false;
+          let v' = mess s v in
+          if !messed then (incr made; Printf.fprintf oc "rs %s %s\n" name (hex_of_bytes (enc s v')))
+        end
+      done) (List.filter (fun (n, _) -> n <> "FixedTransaction") table);
   close_out oc
 
 let run_mode () = run_driver (fun toks impl ->
@@ -247,6 +313,18 @@ let run_mode () = run_driver (fun toks impl ->
         | Err -> ("err", "na")
         | Panic -> ("panic", "na")
         | OutOfFuel -> ("outoffuel", "na")))
+  | ["rs"; name; hexs] ->
+    (* stream (iv): encodings with repeated set items, unsorted / repeated map keys.  Correspondence of the library-faithful
+       decoder sdec (the one C01_dec_sound is about) with the library: same accept / reject, same re-encoding. *)
+    (match List.assoc_opt name table with
+     | None -> ("skip unknown-type", "na")
+     | Some s ->
+       (match sdec s (bytes_of_hex hexs) with
+        | Ok (v, []) -> ("ok " ^ hex_of_bytes (enc s v), "na")
+        | Ok (_, _) -> ("err", "na")
+        | Err -> ("err", "na")
+        | Panic -> ("panic", "na")
+        | OutOfFuel -> ("outoffuel", "na")))
   | ["api"; name; _plan; _seed] ->
     (* stream (ii): the implementation's own bytes b (built through the public API) are fed to the model:
        dec s b must accept all of b, the decoded value must be in the domain of the round-trip theorem and
@@ -256,7 +334,7 @@ let run_mode () = run_driver (fun toks impl ->
      | Some s ->
        (* model side: api_model_accepts (Coq) = the bytes are a complete encoding of a value in the domain of the
           round-trip theorem that re-encodes to exactly these bytes; verdict: api_holds (Coq) on the observations *)
-       let model_of b = (match api_model_accepts s b with
+       let model_of b = (match sdec_accepts s b with
          | Some re -> let h = hex_of_bytes re in "ok " ^ h ^ " " ^ h
          | None -> (match dec s b with
              | Ok (_, []) -> "model-outside-domain" | Ok (_, _) -> "model-trailing" | Err -> "model-err"
@@ -293,7 +371,7 @@ let run_mode () = run_driver (fun toks impl ->
               let i = String.index t '=' in
               let k = String.sub t 1 (i - 1) in
               "f" ^ k ^ "=" ^ (match api_model_field s b (n_of_string k) with Some fb -> hex_of_bytes fb | None -> "~")) ftok in
-          let model = (match api_model_accepts s b with
+          let model = (match sdec_accepts s b with
             | Some re -> let h = hex_of_bytes re in String.concat " " (["ok"; h; h] @ fmodel)
             | None ->
               (* re-framed sources (set tags stripped, indefinite outer container) may keep a form the model's decoder
